@@ -21,6 +21,15 @@ use foyer::{
     RecoverMode, S3FifoConfig, SieveConfig, StorageFilter,
 };
 use foyer_common::hasher::ModHasher;
+use foyer::{StorageFilterCondition, StorageFilterResult, Statistics};
+
+#[derive(Debug)]
+struct AlwaysThrottle;
+impl StorageFilterCondition for AlwaysThrottle {
+    fn filter(&self, _: &Arc<Statistics>, _: u64, _: usize) -> StorageFilterResult {
+        StorageFilterResult::Throttled(Duration::from_millis(1))
+    }
+}
 use foyer_storage::{
     test_utils::{Biased, Switch},
     verif::{BlobIndexReader, IoB, IoBuf, IoBufMut, IoEngineBuildContext, Partition},
@@ -162,6 +171,7 @@ async fn open(dir: &Path, cfg: &Cfg, sh: Arc<Shared>, switch: Switch) -> foyer::
     match gets_d(kv, "admit", "all") {
         "all" => {}
         "none" => eng = eng.with_admission_filter(StorageFilter::new().with_condition(Biased::new([]))),
+        "throttle" => eng = eng.with_admission_filter(StorageFilter::new().with_condition(AlwaysThrottle)),
         s => {
             let keys: Vec<u64> = s.split(',').filter(|x| !x.is_empty()).map(|x| x.parse().unwrap()).collect();
             eng = eng.with_admission_filter(StorageFilter::new().with_condition(Biased::new(keys)));
